@@ -353,7 +353,7 @@ def run_case(case, ctx):
             ctx.check("C09.no-raise", False, {"exc": repr(e)[:300]}, tags)
             return
         ctx.check("C09.no-raise", True)
-        ctx.count("tracking-with-symmetric-grid", "tracking-one-droplet-through-different-classes")
+        ctx.count("tracking-with-symmetric-grid")
         ctx.check("C09.finite", sum(len(t) for t in tracks) == sum(len(f) for f in case["hist"]) and all(np.all(np.isfinite(np.asarray(d.position))) and np.isfinite(d.radius) for t in tracks for d in t.droplets), None, tags)
         return
     if p == "tracking-mixed-classes":
